@@ -446,6 +446,9 @@ class C01(BtProp):
 @register
 class C02(BtProp):
     pid = "C02"
+    # with leaves answering INVALID a composite can be INVALID over children that still show a status (it adopted the
+    # INVALID without being stopped), which `stop()` then skips: that clause is not judged there
+    invalid_block = ("core", ["stop-leaves-non-invalid"])
     inner_stop = 0.35
     exhaustive = True
     profiles = [("core", 0.5), ("par", 0.2), ("dec", 0.2), ("stock", 0.1)]
